@@ -1,6 +1,7 @@
 SPECIFICATION Spec
 CONSTANTS Devs = {}
-          Cases <- MThorough
+          Cases <- MCSel
+          Family = "MThorough"
           GF = 2
           FPKeys = {1, 2, 3, 4, 5}
 INVARIANTS StackIsRecursive EmitSafe EmitOnce NoFalseNegative ChainShape CountRight
